@@ -353,27 +353,38 @@ pub fn exec_snd(case: &[u64]) -> L {
     let (p, rest) = parse_packet(&case[1..]);
     let nenc = rest[0] as usize; let mut rest = &rest[1..];
     for _ in 0..nenc { let n = rest[0] as usize; rest = &rest[1 + n..]; }
-    let flush_ok = rest[0] == 1; let flush_kind = rest[0]; let ans = &rest[1..];   // 1 = flush succeeds; any other value = it fails, the value naming the error kind
+    let flush_kind = rest[0]; let ans = &rest[1..];   // flush script in base 8, one digit per flush call: 1 = succeeds, anything else = fails with that kind of error
     let mut o = vec![];
+    // The sender object is not fresh: it has already sent a related packet to an always-ready device (a sender keeps nothing from one
+    // packet to the next, so this must not matter): none / the same packet / the same with the opposite error flag / same address, other payload.
+    let prelude: Option<Packet> = match (p.data.len() as u64 + p.device_address as u64) % 4 {
+        0 => None, 1 => Some(p.clone()), 2 => { let mut q = p.clone(); q.is_error = !q.is_error; Some(q) }
+        _ => { let mut q = p.clone(); q.data.reverse(); q.data.push(0x5a); Some(q) } };
     match link {
         0 => {
-            let st = Rc::new(RefCell::new(CanSt { ans: ans.iter().map(|x| *x as u8).collect(), ..Default::default() }));
+            let st = Rc::new(RefCell::new(CanSt { accept_all: true, ..Default::default() }));
             let mut tx = Can::new(ross_protocol::interface::can::verif_sim::Can::new(CanDev(st.clone())));
+            if let Some(q) = &prelude { let _ = catch_unwind(AssertUnwindSafe(|| tx.try_send_packet(q))); }
+            { let mut s = st.borrow_mut(); s.tx.clear(); s.spins = 0; s.accept_all = false; s.ans = ans.iter().map(|x| *x as u8).collect(); }
             let r = catch_unwind(AssertUnwindSafe(|| tx.try_send_packet(&p)));
             o.push(match r { Ok(Ok(())) => 0, Ok(Err(InterfaceError::CanError(CanError::MailboxFull))) => 1, Ok(Err(_)) => 9, Err(pl) => if pl.is::<Hang>() { 4 } else { 5 } });
             let sent: Vec<L> = st.borrow().tx.iter().map(|f| { let mut l = vec![]; crate::s_frames::show_can_pub(f, &mut l); l }).collect();
             show_lists(&sent, &mut o);
         }
         1 => {
-            let st = Rc::new(RefCell::new(UsartSt { ans: ans.iter().map(|x| *x as u8).collect(), ..Default::default() }));
+            let st = Rc::new(RefCell::new(UsartSt { accept_all: true, ..Default::default() }));
             let mut tx = Usart::new(UsartDev(st.clone()));
+            if let Some(q) = &prelude { let _ = catch_unwind(AssertUnwindSafe(|| tx.try_send_packet(q))); }
+            { let mut s = st.borrow_mut(); s.tx.clear(); s.spins = 0; s.accept_all = false; s.ans = ans.iter().map(|x| *x as u8).collect(); }
             let r = catch_unwind(AssertUnwindSafe(|| tx.try_send_packet(&p)));
             o.push(match r { Ok(Ok(())) => 0, Ok(Err(_)) => 9, Err(pl) => if pl.is::<Hang>() { 4 } else { 5 } });
             let tx_bytes = st.borrow().tx.clone(); o.push(tx_bytes.len() as u64); o.extend(tx_bytes.iter().map(|b| *b as u64));
         }
         _ => {
-            let st = Arc::new(Mutex::new(SerSt { ans: ans.iter().map(|x| *x as u32).collect(), flush_ok, flush_kind, ..Default::default() }));
+            let st = Arc::new(Mutex::new(SerSt { flush_ok: true, ..Default::default() }));
             let mut tx = Serial::new(Box::new(SerDev(st.clone())));
+            if let Some(q) = &prelude { let _ = catch_unwind(AssertUnwindSafe(|| tx.try_send_packet(q))); }
+            { let mut s = st.lock().unwrap(); s.tx.clear(); s.spins = 0; s.flush_ok = false; s.flush_kind = flush_kind; s.ans = ans.iter().map(|x| *x as u32).collect(); }
             let r = catch_unwind(AssertUnwindSafe(|| tx.try_send_packet(&p)));
             o.push(match r {
                 Ok(Ok(())) => 0,
@@ -398,6 +409,7 @@ pub fn gen_snd(r: &mut Rng, thorough: bool, cx: &mut Ctx) {
     for link in 0..3u64 {
         for k in 0..(if thorough { 20000 } else { 1200 }) {
             let n = match r.below(8) { 0 => r.below(9) as usize, 1 => 8, 2 => 9, 3 => 14, 4 => r.range(100, 300) as usize, _ => r.range(0, 50) as usize };
+            let n = if link == 2 && k % 40 == 7 { r.range(440, 1000) as usize } else { n };      // a few packets of 63..143 frames on the serial port
             let p = gen_packet(r, n);
             let nframes = if n <= 8 { 1 } else { (n + 6) / 7 };
             let mut ans: Vec<u64> = vec![]; let mut flush = 1u64;
@@ -418,7 +430,8 @@ pub fn gen_snd(r: &mut Rng, thorough: bool, cx: &mut Ctx) {
                     let mode = k % 6;
                     let err_at = if mode == 4 { r.below(writes as u64 * 2) as usize } else { usize::MAX };
                     let zero_at = if mode == 5 && r.coin() { r.below(writes as u64 * 2) as usize } else { usize::MAX };
-                    if mode == 3 || (mode == 5 && r.coin()) { flush = r.pick(&[0, 2, 3, 4, 5, 6]); }
+                    if mode == 3 || (mode == 5 && r.coin()) { flush = r.pick(&[0, 2, 3, 4, 5, 6]); if r.coin() { flush += 8; } }    // the one flush fails (a second one, if the sender made it, would succeed)
+                    else if k % 40 == 7 { flush = if r.coin() { 1 } else { 8 * 1 + r.pick(&[0, 2, 5]) }; }   // long packets: script (ok, fail..) or (fail, ok)
                     for i in 0..(writes * 14) {
                         if i == err_at { ans.push(0x1001 + r.below(4)); continue; }
                         if i == zero_at { ans.push(0); continue; }
